@@ -14,6 +14,7 @@
 //	                 string functions, aggregates, UNION, CAST): the declared type with the returned
 //	                 Go values, judged by the engine's own Convert (impl) and by `valid` (model).
 //	         Model-free oracle: NOT NULL column holding NULL / value the declared type rejects.
+//	         conv / gen / cv — conversions and text generalisation, see conv.go.
 //
 // Envelope: DIV / % are left out of the sqlgen stream (C25's regions); the type-heavy stream keeps
 // out unsigned subtraction below zero and BIGINT overflow (C25: the wrapped value is then also
@@ -24,6 +25,7 @@ import (
 	"fmt"
 	"go/ast"
 	"math"
+	"os"
 	"sort"
 	"strconv"
 	"strings"
@@ -39,7 +41,12 @@ import (
 	"github.com/dolthub/go-mysql-server/verifharness/sqlgen"
 )
 
-func main() { hx.Main(extract, run) }
+func main() {
+	if len(os.Args) > 1 && os.Args[1] == "convtab" { // development aid: the real Convert on every target × source class
+		convDump()
+	}
+	hx.Main(extract, run)
+}
 
 // ---------------------------------------------------------------------------------------------
 // Facts.
@@ -70,7 +77,8 @@ func oneLine(s string) string { return strings.Join(strings.Fields(s), " ") }
 
 func extract(a hx.ExtractArgs) error {
 	lf := hx.NewLeanFile("Gms.Generated.C09", "sql/expression/*.go", "sql/expression/function/{coalesce,ifnull,if}.go",
-		"sql/expression/function/aggregation/unary_aggs.og.go", "sql/plan/subquery.go", "sql/plan/join.go", "sql/types (run-time)")
+		"sql/expression/function/aggregation/unary_aggs.og.go", "sql/plan/subquery.go", "sql/plan/join.go", "sql/types (run-time)",
+		"sql/expression/convert.go", "sql/types/conversion.go", "sql/types/strings.go", "sql/plan/set_op.go", "sql/planbuilder/set_op.go")
 	lf.Comment("body of `IsNullable` per expression kind (whitespace-normalised source text)")
 	var rows []string
 	for _, s := range nullableSites {
@@ -149,6 +157,9 @@ func extract(a hx.ExtractArgs) error {
 	lf.DefNat("decimalMaxPrecision", uint64(types.DecimalTypeMaxPrecision))
 	lf.DefNat("decimalMaxScale", uint64(types.DecimalTypeMaxScale))
 	lf.DefString("booleanType", types.Boolean.String())
+	if err := extractConv(a, lf); err != nil {
+		return err
+	}
 	return lf.Write(a.Out)
 }
 
@@ -381,8 +392,11 @@ func sameValue(conv, v interface{}) bool {
 			return err == nil && f == c
 		}
 	case float32:
-		if w, ok := v.(float32); ok {
+		switch w := v.(type) {
+		case float32:
 			return w == c
+		case float64: // CAST(x AS FLOAT) hands out a float64 under the FLOAT type; floats are judged as numbers
+			return float64(c) == w
 		}
 	}
 	return false
@@ -1059,7 +1073,11 @@ func run(a hx.RunArgs) error {
 		"2^k and 10^k, decimals of scale 0-6, multi-byte strings of lengths around the limits — non-trivial when the value is not NULL; " +
 		"nul/col: sqlgen databases (1-3 tables, NOT NULL flags, NULLs) and query terms (depth <=4: joins incl. outer, GROUP BY, set operations, subqueries, " +
 		"CASE/COALESCE …) plus a type-heavy stream (narrow/unsigned/decimal/char columns × 110 expressions × aggregates/UNION/LEFT JOIN/derived table) — " +
-		"non-trivial when the result has rows (nul: and some column holds a NULL)"
+		"non-trivial when the result has rows (nul: and some column holds a NULL); " +
+		"conv: the real expression.Convert, 14 targets × ~250 input values (numbers, text of 8 shapes × 4 character sets, byte strings valid/invalid as UTF-8 from VARBINARY/BINARY/BLOB of 0..12 bytes, " +
+		"temporal values) × child flag; gen: the real types.GeneralizeTypes on pairs of 120 text types (CHAR/VARCHAR(n), TINYTEXT..LONGTEXT × utf8mb4/latin1/utf8mb3/utf16/ascii) with the longest values of both operands; " +
+		"cv: CAST/CONVERT of 17 columns (binary, blob, multi-charset text, numeric, temporal; NOT NULL and nullable) to every target, UNION [ALL] of column pairs directly and under a derived table, " +
+		"CASE/IF/IFNULL/derived UNION/COALESCE/CONCAT over 16 text columns of 5 character sets holding their longest values — always non-trivial"
 	r := hx.NewRand(a.Seed).Fork()
 	nUnit, nDb, perDb, nType := 8000, 40, 10, 500
 	if a.Thorough {
@@ -1088,5 +1106,13 @@ func run(a hx.RunArgs) error {
 	for k, v := range g.Stats {
 		out.StatN("gen:"+k, v)
 	}
-	return s.typeStream(r.Fork(), nType)
+	if err := s.typeStream(r.Fork(), nType); err != nil {
+		return err
+	}
+	// conversions and text generalisation (conv.go); own random stream: the older streams keep their samples
+	rc := hx.NewRand(a.Seed*1000003 + 9).Fork()
+	convCases(out, rc.Fork())
+	nGen := 1200
+	genCases(out, rc.Fork(), nGen, a.Thorough)
+	return s.convStream(rc.Fork(), a.Thorough)
 }
